@@ -54,6 +54,8 @@ type nodeChk struct {
 	emCommit         uint64
 	haveEm           bool
 	restartTerm      uint64
+	exTerm, exVote   uint64 // hard state the node has exposed last (or started with)
+	exCommit         uint64
 	durTerm, durVote uint64
 	durCommit        uint64
 	maxSentVoteTerm  uint64
@@ -343,6 +345,7 @@ func (k *Checker) onStart(n *Node, restart bool) {
 	x.selfVoteTerm = 0
 	x.nextApply = st.Applied + 1
 	x.restartTerm = st.Term
+	x.exTerm, x.exVote, x.exCommit = st.Term, st.Vote, st.Committed
 	if restart {
 		k.count("dur.restart")
 		// C07/C05: the node continues from exactly the last persisted hard state.
